@@ -350,6 +350,6 @@ def _merge_database_dicts(*database_dicts):
                 f'{duplicate_keys}'
             )
 
-            result['alias'].update(database_dict['alias'])
+            result.setdefault('alias', {}).update(database_dict['alias'])
 
     return result
